@@ -6,10 +6,13 @@
                 which primitive, key, mode with IV `IVGiven x` or `IVFresh n`
                 (n bytes of os.urandom), padding step, AAD, tag length, hash, ...
    in the guard order of the Python.  Whether the *library* then accepts the plan
-   is the separate predicate `lib_*_ok` (trusted library behaviour, probed into
-   PKGen.CryptoTables and compared on every run): where it is false the engine
-   ends in a non-KMIP exception (or, where the code catches everything, in
-   CryptographicFailure).  Definitions only; enum members are their KMIP numeric
+   is the separate predicate `lib_*_ok` / `lib_sym_stage` (trusted library
+   behaviour, probed into PKGen.CryptoTables and compared on every run).  Since the
+   `fix:` commits f8d262f..fd6e5cc the engine converts the library's refusals into
+   KMIP errors (mode construction -> InvalidField, cipher operations incl. InvalidTag
+   and padding removal -> CryptographicFailure, KDF refusals -> InvalidField); the
+   only non-KMIP exceptions left on the symmetric path are two RC4 corners
+   (`lib_sym_stage = LCrash`).  Definitions only; enum members are their KMIP numeric
    values (option Z, None = parameter absent). *)
 From PK Require Import Base.Bytes Crypto.Padding.
 From PKGen Require Import CryptoTables.
@@ -167,6 +170,7 @@ Definition lib_mode_ok (block : Z) (m : mode_plan) (dec : bool) : bool :=
       (if dec then olen tag <=? 16 else true)
   end.
 
+(* everything the library checks passes *)
 Definition lib_sym_ok (dec : bool) (p : sym_plan) (datalen : Z) : bool :=
   match assoc2 (p_alg p) (mode_val (p_mode p)) lib_cipher_ok with
   | None => false
@@ -179,13 +183,48 @@ Definition lib_sym_ok (dec : bool) (p : sym_plan) (datalen : Z) : bool :=
   && (if dec && (oeqZ (Some (mode_val (p_mode p))) BCM_CBC || oeqZ (Some (mode_val (p_mode p))) BCM_ECB)
       then datalen mod (p_block p) =? 0 else true).
 
+(* ... and where it does not, which stage refuses and what the engine makes of it:
+     mode(...) construction        (GCM: IV length 8..128, min_tag_length >= 4)      -> InvalidField
+     padder construction on encrypt (the RC4 class has no block_size: AttributeError) -> non-KMIP exception
+     Cipher(...) / authenticate_additional_data / update / finalize                    -> CryptographicFailure
+     encryptor.tag on the RC4 stream context; padder construction on decrypt (RC4)     -> non-KMIP exception *)
+Inductive lstage := LOk | LErr (e : kerr) | LCrash.
+
+Definition lib_ctor_ok (m : mode_plan) : bool :=
+  match m with
+  | MGCM s _ mt => (8 <=? iv_len s) && (iv_len s <=? 128) && (4 <=? mt)
+  | _ => true
+  end.
+Definition lib_pad_crash (p : sym_plan) : bool :=
+  match p_pad p with PScheme _ => p_block p <=? 0 | _ => false end.
+Definition lib_cipher_ops_ok (dec : bool) (p : sym_plan) (datalen : Z) : bool :=
+  match assoc2 (p_alg p) (mode_val (p_mode p)) lib_cipher_ok with
+  | None => false
+  | Some ks => memZ (8 * zlen (p_key p)) ks
+  end
+  && match p_mode p with
+     | MIV _ s => iv_len s =? p_block p
+     | MGCM _ tag _ => if dec then olen tag <=? 16 else true
+     | _ => true
+     end
+  && negb (p_gcm p && (mode_val (p_mode p) =? -1) && is_some (p_aad p))
+  && (if dec && (oeqZ (Some (mode_val (p_mode p))) BCM_CBC || oeqZ (Some (mode_val (p_mode p))) BCM_ECB)
+      then datalen mod (p_block p) =? 0 else true).
+
+Definition lib_sym_stage (dec : bool) (p : sym_plan) (datalen : Z) : lstage :=
+  if lib_sym_ok dec p datalen then LOk
+  else if negb (lib_ctor_ok (p_mode p)) then LErr InvalidField
+  else if negb dec && lib_pad_crash p then LCrash
+  else if negb (lib_cipher_ops_ok dec p datalen) then LErr CryptographicFailure
+  else LCrash.
+
 (* ------------------------------------------------------------------ sign / verify *)
 
 Inductive sig_pad := SPSS | SPKCS1.                (* PSS(MGF1(h), MAX_LENGTH) with hash h  |  PKCS1v15 with hash h *)
 Record sig_params := mkSig {
   s_dsa : option Z; s_alg : option Z; s_hash : option Z; s_pad : option Z;
   s_key_loads : bool }.
-(* hash = None: the code calls hash_alg() on None (TypeError) *)
+(* hash = None never occurs in an accepted plan (sign: InvalidField; verify: InvalidField / CryptographicFailure) *)
 Record sig_plan := mkSigPlan { sg_hash : option Z; sg_pad : sig_pad }.
 
 Definition sign_plan (p : sig_params) : res sig_plan :=
@@ -208,9 +247,13 @@ Definition sign_plan (p : sig_params) : res sig_plan :=
     match s_pad p with
     | None => Err InvalidField
     | Some pv =>
-      if pv =? PM_PSS then Ok (mkSigPlan h SPSS)
-      else if pv =? PM_PKCS1v15 then Ok (mkSigPlan h SPKCS1)
-      else Err InvalidField
+      match h with
+      | None => Err InvalidField             (* 'The hashing algorithm is not supported for signing.' *)
+      | Some _ =>
+        if pv =? PM_PSS then Ok (mkSigPlan h SPSS)
+        else if pv =? PM_PKCS1v15 then Ok (mkSigPlan h SPKCS1)
+        else Err InvalidField
+      end
     end
   end.
 
@@ -243,7 +286,7 @@ Definition verify_plan (p : sig_params) : res sig_plan :=
     else Err InvalidField
   end.
 
-(* sign(): a plan without a hash ends in TypeError *)
+(* every accepted sign plan names a hash (lemma sign_plan_has_hash) *)
 Definition lib_sign_ok (p : sig_plan) : bool := is_some (sg_hash p).
 
 (* ------------------------------------------------------------------ mac *)
@@ -285,6 +328,7 @@ Inductive der_plan :=
 
 Definition derive_plan (p : der_params) : res der_plan :=
   if oeqZ (d_method p) DM_ENCRYPT then
+    if negb (is_some (d_data p)) then Err InvalidField else
     match encrypt_plan (mkEnc (d_alg p) (match d_key p with Some k => k | None => [] end) (d_key_loads p)
                               (d_mode p) (d_pad p) (d_iv p) None None None None) with
     | Err e => Err e
@@ -321,6 +365,7 @@ Definition derive_plan (p : der_params) : res der_plan :=
 
 Definition digest_size (h : Z) : Z := match assoc h hash_digest_size with Some n => n | None => 0 end.
 
+(* KDF plans: a refusal of the library (construction or derive) is InvalidField *)
 Definition lib_der_ok (p : der_plan) (datalen : Z) (data_present : bool) : bool :=
   match p with
   | DEncrypt (CSym sp) => data_present && lib_sym_ok false sp datalen
@@ -329,6 +374,15 @@ Definition lib_der_ok (p : der_plan) (datalen : Z) (data_present : bool) : bool 
   | DHash _ _ => true
   | DPbkdf2 _ len _ it pw => is_some pw && (1 <=? it) && (0 <=? len)
   | DKbkdf _ len fixed key => is_some fixed && is_some key && (0 <=? len)
+  end.
+
+(* which stage refuses a derivation plan: the KDF branches wrap construction and derive() in one try (-> InvalidField);
+   ENCRYPT is the symmetric path; RSA `public_key.encrypt` is outside any try (observed separately, `asym_ok`) *)
+Definition lib_der_stage (p : der_plan) (datalen : Z) : lstage :=
+  match p with
+  | DEncrypt (CSym sp) => lib_sym_stage false sp datalen
+  | DEncrypt (CAsym _ _) => LOk
+  | _ => if lib_der_ok p datalen true then LOk else LErr InvalidField
   end.
 
 (* the engine handler _process_derive_key after derive_key returned `out` *)
